@@ -70,13 +70,14 @@ structure ImplObs where
   established : Bool
   crashed : Bool        -- the connect call panicked or never returned
   writes : List Write
+  permanent : Bool := false   -- failed with a permanent ConnError
 
 def parseImpl (s : String) : Option ImplObs := do
   let m := kv (s.splitOn " ")
   let out ← m.lookup "out"
   let w ← m.lookup "w"
   let ws ← (if w.isEmpty then some [] else (w.splitOn ",").mapM parseWrite)
-  pure ⟨out == "established", out == "panic" || out == "hang", ws⟩
+  pure ⟨out == "established", out == "panic" || out == "hang", ws, out == "failed:true"⟩
 
 structure DSt where
   cfg : Cfg
@@ -124,17 +125,17 @@ def stepWith (which : Which) (d : DSt) (fields : List String) (impl : String) : 
     let r := negotiate d.cfg d.sess sc
     let ms := showResult r
     let io := parseImpl impl
-    let spec (est : Bool) (ws : List Write) : Bool :=
+    let spec (est : Bool) (ws : List Write) (perm : Bool := false) : Bool :=
       match which with
       | .c03 => (est == completes d.cfg d.sess sc) && orderOk (ws.map (·.kind))
       | .c04 => gateOk d.cfg ws &&
           -- secure writes only after a verified handshake
           (ws.all fun w => !w.secure || (hsOk && Model.C04.startTLSOk tcfg cert))
       | .c11 => holdsC11 d.sess sc ws
-      | .c14 => authGateOk sc est ws
-    let okM := spec (r.outcome == .established) r.writes
+      | .c14 => authGateOk sc est ws && mechGateOk sc ws && failurePermanentOk sc ws perm
+    let okM := spec (r.outcome == .established) r.writes (r.outcome == .failed true)
     let okI := match io with
-      | some o => !o.crashed && spec o.established o.writes
+      | some o => !o.crashed && spec o.established o.writes o.permanent
       | none => false
     ({ d with sess := r.sess }, ⟨ms, ms == impl, okM, okI, "-"⟩)
   | _ => (d, .bad)
